@@ -11,7 +11,7 @@ every edit) followed by `commit_inner` (updates, packed-refs merge, deletions, d
 Abstract side: GixModel.Spec.C16 — a map `Name → Option Target` with the all-or-nothing
 compare-and-swap `Spec.apply`. `abs` looks at a store the way `try_find` does.
 -/
-import GixModel.Lemmas.C16Leak
+import GixModel.Lemmas.C16Log
 import GixModel.Model.C16
 
 namespace GixModel.Props.C16
@@ -293,5 +293,227 @@ theorem mixed_history_refines (env : Env) (ops : List HOp) :
       obtain ⟨i1, i2⟩ := ih _ k2 k3 k4 hP'
       refine ⟨.cons ?_ i1, i2⟩
       rw [k1]; exact .gitUpdate _ _ del nd name new old
+
+/-! ### directories and reflogs (extended model GixModel.Model.C16Fs)
+
+The extended model follows the real code where nested names meet: a lock file below a loose
+reference cannot be created (refused in `prepare`, atomically); a reflog or reference path that is
+a directory, or lies below a file, makes `commit` fail where it stands. -/
+
+open GixModel.C16Fs
+
+-- refs/heads/a, refs/heads/a/b, refs/heads/b, refs/tags/t
+def nA : Name := [114, 101, 102, 115, 47, 104, 101, 97, 100, 115, 47, 97]
+def nAB : Name := [114, 101, 102, 115, 47, 104, 101, 97, 100, 115, 47, 97, 47, 98]
+def nB : Name := [114, 101, 102, 115, 47, 104, 101, 97, 100, 115, 47, 98]
+def nT : Name := [114, 101, 102, 115, 47, 116, 97, 103, 115, 47, 116]
+
+/-- refs/heads/a/b = 1 (loose, with its reflog), HEAD -> refs/heads/a -/
+def SXnested : StoreX :=
+  { base := { loose := [(nAB, .object 1), (bHead, .symbolic nA)] }, logs := [(nAB, [(0, 1)])] }
+
+/-- The full statement with nested names in play: whatever a transaction runs into, a failure
+leaves references, packed-refs, lock files and reflogs as they were. -/
+def C16_full : Prop :=
+  ∀ (env : Env) (SX : StoreX) (t : Txn), StoreOk SX.base → NoLocks SX.base → PlainTxn t →
+    match runX env SX t with
+    | .err _ SX' => SX' = SX
+    | .panic SX' => SX' = SX
+    | _ => True
+
+/-- … is FALSE of today's code (known finding `df-partial-commit`): with refs/heads/a/b in
+place, the transaction [b := 2, a := 2, t := 2] fails at commit time (the reflog of
+refs/heads/a cannot be created: its path is a directory) AFTER refs/heads/b and its reflog were
+written; refs/tags/t is never reached. The harness replays exactly this history against the real
+code (corpus of `histx` lines). -/
+theorem df_partial_commit_witness :
+    let t : Txn := { edits := [{ change := .update .andReference .any (.object 2), name := nB, deref := false },
+                               { change := .update .andReference .any (.object 2), name := nA, deref := false },
+                               { change := .update .andReference .any (.object 2), name := nT, deref := false }],
+                     mode := .deletionsOnly }
+    (match runX { known := fun _ => true } SXnested t with
+      | .err .reflog SX' => decide (SX'.base.find nB = some (.object 2) ∧ SX'.base.find nT = none ∧
+          SX'.base.find nA = none ∧ lookup SX'.logs nB = some [(0, 2)] ∧ SX'.base.locks = [])
+      | _ => false) = true := by decide
+
+theorem C16_full_false : ¬ C16_full := by
+  intro h
+  have hok : StoreOk SXnested.base := by
+    refine ⟨?_, ?_⟩
+    · intro b hb; cases hb
+    · intro b hb; cases hb
+  have := h { known := fun _ => true } SXnested
+    { edits := [{ change := .update .andReference .any (.object 2), name := nB, deref := false },
+                { change := .update .andReference .any (.object 2), name := nA, deref := false },
+                { change := .update .andReference .any (.object 2), name := nT, deref := false }],
+      mode := .deletionsOnly }
+    hok ⟨rfl, rfl⟩
+    (by intro u hu; simp at hu; rcases hu with h | h | h <;> (subst h; rfl))
+  have hw := df_partial_commit_witness
+  simp only at hw
+  generalize runX { known := fun _ => true } SXnested
+    { edits := [{ change := .update .andReference .any (.object 2), name := nB, deref := false },
+                { change := .update .andReference .any (.object 2), name := nA, deref := false },
+                { change := .update .andReference .any (.object 2), name := nT, deref := false }],
+      mode := .deletionsOnly } = r at this hw
+  cases r with
+  | ok S' => simp at hw
+  | panic S' => simp at hw
+  | hang => simp at hw
+  | err e S' =>
+    cases e with
+    | reflog =>
+      simp only [decide_eq_true_eq] at hw
+      simp only at this
+      rw [this] at hw
+      exact absurd hw.1 (by decide)
+    | core e => simp at hw
+    | lockCommit n => simp at hw
+    | deleteReflog n => simp at hw
+    | deleteRef n => simp at hw
+
+/-- the other side of the same gap (known finding `df-accepted-conflict`): refs/heads/a exists in
+packed-refs only; creating the symbolic ref refs/heads/a/b below it touches no file that is in the
+way (no reflog line for a symbolic value), so nothing notices — git refuses it. -/
+theorem df_accepted_conflict_witness :
+    let SX : StoreX := { base := { loose := [(bHead, .symbolic nB)], packed := some [(nA, 1)] }, logs := [(nA, [(0, 1)])] }
+    let t : Txn := { edits := [{ change := .update .andReference .any (.symbolic nB), name := nAB, deref := false }],
+                     mode := .deletionsOnly }
+    (match runX { known := fun _ => true } SX t with
+      | .ok SX' => decide (SX'.base.find nA = some (.object 1) ∧ SX'.base.find nAB = some (.symbolic nB))
+      | _ => false) = true := by decide
+
+/-- a FILE where a directory is needed is noticed while locking, i.e. in `prepare`: the
+transaction is refused as if the lock were held and nothing has happened (here: refs/heads/a
+exists loose, [b := 2, a/b := 2] is refused, b is not written) -/
+theorem df_prepare_refusal_witness :
+    let SX : StoreX := { base := { loose := [(nA, .object 1), (bHead, .symbolic nA)] }, logs := [(nA, [(0, 1)])] }
+    let t : Txn := { edits := [{ change := .update .andReference .any (.object 2), name := nB, deref := false },
+                               { change := .update .andReference .any (.object 2), name := nAB, deref := false }],
+                     mode := .deletionsOnly }
+    (match runX { known := fun _ => true } SX t with
+      | .err (.core (.lockAcquire n)) SX' => decide (n = nAB ∧ SX' = SX)
+      | _ => false) = true := by decide
+
+/-- Nested names in play, extended model: a transaction that goes through — whatever
+directories and reflogs are around — is the compare-and-swap on the map (for transactions none of
+whose names lies below a loose reference file; those are refused, see below). -/
+theorem txn_refines_nested_ok (env : Env) (SX SX' : StoreX) (t : Txn) (hS : StoreOk SX.base) (hL : NoLocks SX.base)
+    (hT : PlainTxn t)
+    (hnb : ∀ es, preProcess (fun n => lookup SX.base.loose n) t.edits = .ok es → blockedNames SX.base es = [])
+    (h : runX env SX t = .ok SX') :
+    Spec.apply env (abs SX.base) t = .ok (abs SX'.base) ∧ StoreOk SX'.base ∧ NoLocks SX'.base := by
+  have hrun := runX_ok_transfer env SX SX' t h hnb
+  have href := run_refines env SX.base t hS hL hT
+  rw [hrun] at href
+  exact ⟨href.1, href.2.1, href.2.2.1⟩
+
+/-- A failure of `prepare` in the extended model — an expectation, a duplicate name, a held lock,
+a loose reference FILE where the lock file needs a directory — is atomic for EVERY store (any
+locks, any reflogs, any nesting): references, packed-refs, lock files and reflogs are literally
+unchanged. What is not atomic are the failures inside `commit` (`reflog`, `lockCommit`,
+`deleteReflog`, `deleteRef`): `df_partial_commit_witness`. -/
+theorem prepare_failure_atomic (env : Env) (SX : StoreX) (t : Txn) :
+    match runX env SX t with
+    | .err (.core e) SX' => e ≠ .packedCommit → SX' = SX
+    | .panic SX' => SX' = SX
+    | .hang => False
+    | _ => True :=
+  runX_prepare_failure_atomic env SX t
+
+/-- Reflog lines = compare-and-swap values, for transactions that do not dereference (all edits
+`deref = false`; any store without foreign locks, all modes, all expectations): if the transaction
+succeeds, the reflogs are the old ones after one pass over its updates — per updated name ONE
+line `old -> new`, old = the object the name had before (null id if it had none or was symbolic),
+new = the new object; no line if the value does not change; no line for a symbolic new value
+(except a new symbolic ref given `ExistingMustMatch(object)`, as when cloning); only for names that
+get reflogs by default (HEAD, refs/heads/, refs/remotes/, refs/notes/) or already have one — and
+after a pass that removes the reflog of every deleted name. The line format itself (old, new,
+committer, message) is the C21 line model. -/
+theorem reflog_lines_noderef_partial (env : Env) (SX SX' : StoreX) (t : Txn) (hS : StoreOk SX.base)
+    (hL : NoLocks SX.base) (hT : PlainTxn t) (hnd : NoDeref t)
+    (hnb : ∀ es, preProcess (fun n => lookup SX.base.loose n) t.edits = .ok es → blockedNames SX.base es = [])
+    (h : runX env SX t = .ok SX') :
+    SX'.logs = logsD (specLogsU (abs SX.base) SX.logs (t.edits.map fun u => { update := u }))
+      (t.edits.map fun u => { update := u }) :=
+  reflog_noderef env SX SX' t hS hL hT hnd hnb h
+
+-- b := 2 where b was 1 and has a reflog, t := 2 (tags get no reflog by default), delete a/b:
+-- one line 1 -> 2 for b, nothing for t, the reflog of a/b is gone
+example :
+    let SX : StoreX := { base := { loose := [(nB, .object 1), (nAB, .object 1), (bHead, .symbolic nA)] },
+                         logs := [(nB, [(0, 1)]), (nAB, [(0, 1)])] }
+    let t : Txn := { edits := [{ change := .update .andReference (.mustExistAndMatch (.object 1)) (.object 2), name := nB, deref := false },
+                               { change := .update .andReference .any (.object 2), name := nT, deref := false },
+                               { change := .delete .any .andReference, name := nAB, deref := false }],
+                     mode := .deletionsOnly }
+    (match runX { known := fun _ => true } SX t with
+      | .ok SX' => decide (lookup SX'.logs nB = some [(0, 1), (1, 2)] ∧ lookup SX'.logs nT = none ∧ lookup SX'.logs nAB = none)
+      | _ => false) = true := by decide
+
+/-- the value a dereferenced symbolic ref logs as `old`: the object at the end of its chain; if
+the chain ends at a name that does not exist, the `ExistingMustMatch(object)` expectation of the
+edit for that name stands in (as the code does) -/
+def leafOld (M : RefMap) (es : List Edit) : Nat → Name → Option Oid
+  | 0, _ => none
+  | fuel + 1, n =>
+    match M n with
+    | some (.symbolic next) => leafOld M es fuel next
+    | some (.object p) => some p
+    | none =>
+      match es.find? (fun x => x.name = n) with
+      | some x => (match x.update.change with
+        | .update _ (.existingMustMatch (.object o)) _ => some o
+        | .delete (.existingMustMatch (.object o)) _ => some o
+        | _ => none)
+      | none => none
+
+/-- the reflog line of any processed edit, split parents included -/
+def specLineFull (M : RefMap) (es : List Edit) (e : Edit) : Option LogLine :=
+  match e.update.change, M e.name with
+  | .update .only _ (.object new), some (.symbolic next) =>
+    (match leafOld M es 6 next with
+      | some p => if p = new then none else some (p, new)
+      | none => some (0, new))
+  | _, ex => specLine ex e
+
+def specLogsUFull (M : RefMap) (es : List Edit) : List (Name × List LogLine) → List Edit → List (Name × List LogLine)
+  | logs, [] => logs
+  | logs, e :: rest =>
+    specLogsUFull M es (match specLineFull M es e with
+      | some l => if autoLog e.name || (lookup logs e.name).isSome then appendLog logs e.name l else logs
+      | none => logs) rest
+
+/-- The full reflog statement, dereferencing edits included (a split symbolic ref such as HEAD logs
+the old value of the branch it points to). NOT proved in Lean: the leaf value travels through
+`leaf_referent_previous_oid`, whose propagation along the parent chain is only shown to terminate
+(C17 `second_walk_terminates`); the executable extended model computes it and agrees with the
+real code on the reflog contents of every `histx` history of the harness, and the harness oracle
+checks this statement (its Rust transcription) on the real code. -/
+def C16_reflog_full : Prop :=
+  ∀ (env : Env) (SX SX' : StoreX) (t : Txn) (es : List Edit), StoreOk SX.base → NoLocks SX.base → PlainTxn t →
+    preProcess (fun n => lookup SX.base.loose n) t.edits = .ok es → blockedNames SX.base es = [] →
+    runX env SX t = .ok SX' →
+    SX'.logs = logsD (specLogsUFull (abs SX.base) es SX.logs es) es
+
+-- instances of the full statement (evaluated): HEAD -> a = 1, HEAD := 2 with deref logs 1 -> 2 for
+-- both HEAD and a; with a missing and `ExistingMustMatch(3)` HEAD logs 3 -> 1, a logs 0 -> 1
+example :
+    let SX : StoreX := { base := { loose := [(nA, .object 1), (bHead, .symbolic nA)] }, logs := [(nA, [(0, 1)]), (bHead, [(0, 1)])] }
+    let t : Txn := { edits := [{ change := .update .andReference (.mustExistAndMatch (.object 1)) (.object 2), name := bHead, deref := true }],
+                     mode := .deletionsOnly }
+    (match runX { known := fun _ => true } SX t, preProcess (fun n => lookup SX.base.loose n) t.edits with
+      | .ok SX', .ok es => decide (SX'.logs = logsD (specLogsUFull (abs SX.base) es SX.logs es) es ∧
+          lookup SX'.logs bHead = some [(0, 1), (1, 2)] ∧ lookup SX'.logs nA = some [(0, 1), (1, 2)])
+      | _, _ => false) = true := by decide
+
+example :
+    let SX : StoreX := { base := { loose := [(bHead, .symbolic nA)] }, logs := [] }
+    let t : Txn := { edits := [{ change := .update .andReference (.existingMustMatch (.object 3)) (.object 1), name := bHead, deref := true }],
+                     mode := .updatesRemoveLoose }
+    (match runX { known := fun _ => true } SX t, preProcess (fun n => lookup SX.base.loose n) t.edits with
+      | .ok SX', .ok es => decide (SX'.logs = logsD (specLogsUFull (abs SX.base) es SX.logs es) es ∧
+          lookup SX'.logs bHead = some [(3, 1)] ∧ lookup SX'.logs nA = some [(0, 1)])
+      | _, _ => false) = true := by decide
 
 end GixModel.Props.C16
